@@ -280,6 +280,20 @@ func Check(c Case) ([]evid.Violation, info) {
 			in.shadowed++
 			continue
 		}
+		// A sibling binding that also matches the path structurally may win the
+		// search (and abort it if its capture is not convertible - the
+		// precondition C02 carves out); routing is then not asserted.
+		sibling := false
+		for _, other := range c.New {
+			ot, oerr := ref.ParseTemplate(other.Tmpl)
+			if oerr == nil && other.Tmpl != bd.Tmpl && route.VerbMatches(other.Verb, verb) && len(ot.Match(path, 0)) > 0 {
+				sibling = true
+			}
+		}
+		if sibling {
+			in.shadowed++
+			continue
+		}
 		if o.Method != route.MethodName(n) {
 			vs = append(vs, evid.V("accepted-not-routed", "accepted-not-routed:"+feature(c), "rule %s %s accepted but %s %q -> %v", bd.Verb, bd.Tmpl, verb, path, o))
 		} else {
